@@ -477,13 +477,14 @@ fn check_status_bytes(ctx: &mut Ctx) -> Result<(), String> {
 }
 
 pub fn run(ctx: &mut Ctx) {
+    let fs = ctx.first_shard();
     ctx.rule = "well-formed values of the six CTAP2 message types (makeCredential / getAssertion requests and responses, getInfo response, hmac-secret input) with every optional member present or absent, nested descriptors, extension inputs/outputs (hash maps with several entries); injected unknown integer keys 0..=255 outside the type's table and unknown text keys; every member duplicated; every required member removed; options member absent and all 8 partial option maps; all 256 status bytes (conversion both ways, client mapping, and end-to-end through Client::authenticate). Non-trivial = message with at least one optional member present or one injected key, or a status byte; distinct by encoding.".into();
     ctx.assumptions = vec![
         "key tables are transcribed from the CTAP 2.1/2.2 specification in the harness".into(),
         "nested member encodings are compared with the serde encoding of that member taken alone (the statement constrains the top-level keys); equality of messages is equality of their order-normalised CBOR values".into(),
         "Unknown(s) version/extension strings never equal a known name; injected text keys never equal a member name".into(),
     ];
-    let n = ctx.tier.pick(6_000u32, 120_000u32);
+    let n = ctx.tier.pick(6_000u32, 1_000_000u32);
     macro_rules! stage {
         ($salt:expr, $name:expr, $strat:expr) => {
             match search(ctx, $salt, n, ($strat, inject()), |ctx, (x, inj)| check_msg(ctx, x, inj)) {
@@ -505,7 +506,7 @@ pub fn run(ctx: &mut Ctx) {
     macro_rules! all_keys {
         ($name:expr, $strat:expr) => {{
             let x = crate::core::nth_value(crate::core::h64(&($name, ctx.seed)), &$strat);
-            for k in 0..=255u8 {
+            for k in (0..=255u8).filter(|_| fs) {
                 let inj = Inject { ints: vec![(k, k)], texts: vec![], at: k };
                 if let Err(e) = check_msg(ctx, &x, &inj) {
                     let hexs = to_cbor(&x).map(|b| crate::core::hex(&b)).unwrap_or_default();
@@ -522,6 +523,9 @@ pub fn run(ctx: &mut Ctx) {
     all_keys!("gi-response", gi_response());
     all_keys!("hmac-input", hmac_input());
     ctx.note("every_unknown_integer_key_0_255_injected_once_per_type", json!(true));
+    if !ctx.first_shard() {
+        return;
+    }
     if let Err(e) = check_status_bytes(ctx) {
         ctx.violation("status", json!({"type": "status"}), &e);
     }
